@@ -105,7 +105,137 @@ def rule_tracer(run):
     c02.rule_tracer_tables(run)     # a comparison with the constant on the left uses the mirrored operator in both worlds
 
 
-RULES = [rule_rows, rule_siblings, rule_intarith, rule_ext, rule_widths, rule_literals, rule_castmatrix, rule_multi_index, rule_resize, rule_views, rule_tracer]
+def rule_no_lookthrough(run):
+    run.begin(
+        "C09.f",
+        "only compile-time constants are folded: the value types (Integer, Unsigned, Signed, Bit, BitVector, Boolean, "
+        "Enum, Array) never unwrap a qualified run-time object (Signal/Variable/Temporary) to its trace-time "
+        "placeholder value - their operators see a TypeQualifier operand as a foreign type and answer NotImplemented, "
+        "which hands the operation to the qualifier (a run-time expression)",
+        floor=6,
+    )
+    import ast as _ast
+    from ..astutil import dotted as _d
+    mods = ["cohdl/_core/_integer.py", "cohdl/_core/_unsigned.py", "cohdl/_core/_signed.py", "cohdl/_core/_bit.py", "cohdl/_core/_bit_vector.py", "cohdl/_core/_boolean.py", "cohdl/_core/_enum.py", "cohdl/_core/_array.py"]
+
+    def unwraps(tree):
+        out = []
+        for c in _ast.walk(tree):
+            if isinstance(c, _ast.Call):
+                d = _d(c.func) or ""
+                parts = d.split(".")
+                if parts[-1] in ("decay", "_decay") and any(p_.startswith("TypeQualifier") for p_ in parts[:-1]) or d == "_decay":
+                    out.append(c)
+        return out
+
+    for rel in mods:
+        m = run.idx.mod(rel)
+        hits = unwraps(m.tree)
+        run.ob(not hits, rel.split("/")[-1], file=rel, line=(hits[0].lineno if hits else 1), detail="no-unwrap",
+               expected="no TypeQualifier.decay(...) in a value type", found="none" if not hits else f"`{_ast.unparse(hits[0])[:60]}`: the operand's trace-time placeholder value is used as if it were a constant")
+    ctl = _ast.parse("def decay(value):\n    value = cohdl.TypeQualifier.decay(value)\n    return value\n")
+    if len(unwraps(ctl)) != 1:
+        raise AnalysisError("C09.f: positive control not recognised")
+    run.note("positive control recognised: `cohdl.TypeQualifier.decay(value)`")
+    run.end()
+
+
+def rule_ctor_domain(run):
+    run.begin(
+        "C09.ctor",
+        "an int becomes a Signed[w] / Unsigned[w] constant exactly when it is representable: every int of "
+        "[-2^w-1, 2^w+1] for w <= 4 (thorough: 6) is either rejected (outside the range) or stored as the w-bit "
+        "pattern that decodes to the same int - nothing wraps silently (abstract evaluation of the two constructors "
+        "and their int->binary helpers; from_int picks the minimal width)",
+        floor=60,
+    )
+    from ..absint import Interp, Reject
+
+    class _Integer:
+        pass
+
+    class _BV:
+        pass
+
+    class _S(_BV):
+        pass
+
+    class _U(_BV):
+        pass
+
+    class _Me:
+        pass
+
+    for rel, cname, helper, signed in (("cohdl/_core/_signed.py", "Signed", "_int_to_binary", True), ("cohdl/_core/_unsigned.py", "Unsigned", "_uint_to_binary", False)):
+        m = run.idx.mod(rel)
+        f = m.func(f"{cname}.__init__")
+        m.func(f"{cname}.{helper}")
+        for w in range(1, run.bound(5, 7)):
+            for val in range(-(2 ** w) - 1, 2 ** w + 2):
+                got = {}
+
+                class _Sup:
+                    def __init__(self_):
+                        pass
+
+                def _super():
+                    o = _Sup()
+                    o.__dict__["__init__"] = lambda v=None: got.__setitem__("v", v)
+                    return o
+
+                it = None
+
+                class _NS:
+                    pass
+
+                ns = _NS()
+                prims = {"isinstance": lambda v, t: isinstance(v, t) if isinstance(t, (type, tuple)) else False, "Integer": _Integer, "Signed": ns, "Unsigned": ns, "BitVector": _BV,
+                         "hasattr": lambda o, n: False, "int": int, "bool": bool, "str": str, "range": range, "super": _super, "type": type}
+                it = Interp(m, prims)
+                setattr(ns, helper, lambda *a, _it=it: _it.call_function(f"{cname}.{helper}", *a))
+                # isinstance(val, Signed) must work with the namespace object as well
+                prims["isinstance"] = lambda v, t: (isinstance(v, t) if isinstance(t, (type, tuple)) else False)
+                me = _Me()
+                me.width = w
+                try:
+                    it.call_function(f"{cname}.__init__", me, val)
+                    bits = got.get("v")
+                    if isinstance(bits, str) and len(bits) == w and set(bits) <= {"0", "1"}:
+                        dec = int(bits, 2)
+                        if signed and bits[0] == "1":
+                            dec -= 2 ** w
+                        res = f"stored {bits} = {dec}"
+                        okv = dec == val
+                    else:
+                        res, okv = f"stored {bits!r}", False
+                except Reject:
+                    res, okv = "rejected", None
+                rep = (-(2 ** (w - 1)) <= val < 2 ** (w - 1)) if signed else (0 <= val < 2 ** w)
+                ok = (okv is True) if rep else (okv is None)
+                run.ob(ok, f"{cname}.__init__", file=rel, line=f.node.lineno, detail=f"w={w},val={val}", expected=(f"stored as the {w}-bit pattern of {val}" if rep else "rejected (not representable)"), found=res,
+                       sample=(w, val) == (4, 8))
+    # from_int: minimal width
+    m = run.idx.mod("cohdl/_core/_signed.py")
+    f = m.func("Signed.from_int")
+    for val in range(-(run.bound(20, 70)), run.bound(20, 70)):
+        class _Sub:
+            def __getitem__(self, w):
+                return lambda v: ("Signed", w, v)
+        prims = {"isinstance": lambda v, t: False, "Integer": _Integer, "Signed": _Sub()}
+        try:
+            got = Interp(m, prims).call_function("Signed.from_int", val)
+        except Reject as e:
+            got = f"rejected: {e}"
+        w = 1
+        while not (-(2 ** (w - 1)) <= val < 2 ** (w - 1)):
+            w += 1
+        w = max(w, 1)
+        ok = isinstance(got, tuple) and got[2] == val and got[1] >= w and (got[1] == w or (val >= 0 and got[1] == max(val.bit_length() + 1, 1)))
+        run.ob(ok, "Signed.from_int", file=m.rel, line=f.node.lineno, detail=f"val={val}", expected=f"Signed[{w}]({val}) (minimal width that holds the value)", found=str(got), sample=val == -8)
+    run.end()
+
+
+RULES = [rule_rows, rule_siblings, rule_intarith, rule_ext, rule_widths, rule_literals, rule_castmatrix, rule_multi_index, rule_resize, rule_views, rule_tracer, rule_no_lookthrough, rule_ctor_domain]
 LEVEL = "other"
 EXPLANATION = (
     "Structural agreement between the compile-time (folding) path and the run-time path of primitive operators: "
